@@ -1,3 +1,5 @@
+import ZCV.Lemmas.ElabNoInt
+import ZCV.Lemmas.ElabNoIntFlat
 import ZCV.Lemmas.NoInternalLower
 import ZCV.Lemmas.ElabInv
 import ZCV.Lemmas.ElabRulesDoc
@@ -892,5 +894,24 @@ theorem C10_elab_schemaOK (env : Elab.Env) (fuel : Nat) (t : Elab.Node) (S : Cfg
 theorem C10_elab_schemaOK_stock (env : Elab.Env) (fuel : Nat) (t : Elab.Node) (S : Cfg.Schema)
     (hconv : env.conv = Cfg.stockConv) (h : Elab.elabSchema env fuel t = .ok S) : Conf.schemaOK S = true :=
   C10_elab_schemaOK env fuel t S (by intro kt s r hs hr; rw [hconv] at hr; exact Elab.stockConv_key_ne_nil kt s r hs hr) h
+
+
+/-- **Violations are reported as schema errors when the schema is loaded.**  Whatever the document (and the components and base
+    schemas it pulls in), the schema loader ends in a schema object, a `SchemaError`, a `SchemaResourceError` or — only for a keyed
+    default whose key the key type rejects — a `DataConversionError`; never in a Python exception outside the ZConfig family.
+    Hypotheses (`EnvNI`): the datatype registry does not raise for dotted names, key types reject with ValueError only and never
+    turn a fixed name into `*`/`+`; no document uses `<import src=…>` (not modelled); the nesting of documents does not exhaust
+    the fuel (Python: no RecursionError).  A closed counterexample for each hypothesis is in `ZCV/Lemmas/ElabNoIntEx.lean`. -/
+theorem C10_errors_are_schema_errors (env : Elab.Env) (fuel : Nat) (t : Elab.Node)
+    (he : Elab.EnvNI env) (htr : Elab.EnvTrees Elab.NoSrc env) (hsrc : Elab.NoSrc t)
+    (hfuel : Elab.elabSchema env fuel t ≠ .error (.internal "RecursionError")) :
+    (∃ S, Elab.elabSchema env fuel t = .ok S) ∨ (∃ m, Elab.elabSchema env fuel t = .error (.schema m)) ∨
+    (∃ m, Elab.elabSchema env fuel t = .error (.schemaResource m)) ∨ (∃ m, Elab.elabSchema env fuel t = .error (.conversion m)) :=
+  Elab.elab_errors_are_schema_errors env fuel t he htr hsrc hfuel
+
+/-- for a single document without `<import>` and without `extends` on `<schema>`: no internal error for any fuel -/
+theorem C10_no_internal_single_document (env : Elab.Env) (fuel : Nat) (t : Elab.Node) (e : String)
+    (he : Elab.EnvNI env) (hflat : Elab.flatDoc t = true) : Elab.elabSchema env fuel t ≠ .error (.internal e) :=
+  Elab.elab_no_internal_flat env fuel t e he hflat
 
 end ZCV.Props.C10
